@@ -265,10 +265,14 @@ def check(run):
             run.count('top_' + t['out'] + ('_aborted' if t['aborted'] else ''))
 
 
-LIB_LOOPS = ['counter_outputfunc_success', 'input_pingpong', 'counter_repeat', 'input_outputfunc_input']
+LIB_LOOPS = ['counter_outputfunc_success', 'input_pingpong', 'counter_repeat', 'input_outputfunc_input',
+             'timer_expiry_loop', 'fsm_timed_state_loop']
+# loops closed by a transition that the block's own timer starts: nothing is raised to the sender of
+# the first event, the refusal shows as Circuit.error only
+TIMER_LOOPS = ('timer_expiry_loop', 'fsm_timed_state_loop')
 
 
-def check_library_loops(run):
+def check_library_loops(run, only=None):
     """Event loops closed through the output events of LIBRARY blocks (OutputFunc.on_success, Repeat,
     Input.on_output): the guard rule of the model applies to every chain of blocks - the event
     that reaches a block which is still handling one must be refused with an EdzedCircuitError
@@ -276,6 +280,8 @@ def check_library_loops(run):
     import asyncio
     from . import vloop
     for name in LIB_LOOPS:
+        if only is not None and name != only:
+            continue
         obs = dict(raised=None, error=None, ready=None)
 
         async def main(loop, name=name, obs=obs):
@@ -290,6 +296,20 @@ def check_library_loops(run):
                 edzed.Input('b', initdef=0, on_output=edzed.Event(
                     'a', 'put', efilter=(edzed.not_from_undef, edzed.DataEdit.modify('value', lambda v: v + 1))))
                 start = ('a', 'put', {'value': 5})
+            elif name == 'timer_expiry_loop':
+                # the loop closes only in the transition made by the Timer's own timer (on -> off)
+                edzed.Timer('t', t_on=0.002, on_output=edzed.Event('a', 'put', efilter=edzed.not_from_undef))
+                edzed.Input('a', initdef=True, on_output=edzed.Event(
+                    't', 'start', efilter=(edzed.not_from_undef, lambda data: not data['value'])))
+                start = ('t', 'start', {})
+            elif name == 'fsm_timed_state_loop':
+                class Blink(edzed.FSM):
+                    STATES = ['idle', 'lit']
+                    TIMERS = {'lit': (0.003, 'expired')}
+                    EVENTS = [['go', ['idle'], 'lit'], ['expired', ['lit'], 'idle'], ['poke', None, None]]
+                Blink('t', on_exit_lit=edzed.Event('a', 'put', efilter=edzed.DataEdit.add(value=7)))
+                edzed.Input('a', initdef=0, on_output=edzed.Event('t', 'poke', efilter=edzed.not_from_undef))
+                start = ('t', 'go', {})
             elif name == 'counter_repeat':
                 edzed.Counter('cnt', on_output=edzed.Event('rpt', 'inc', efilter=edzed.not_from_undef))
                 edzed.Repeat('rpt', dest='cnt', etype='inc', interval=10)
@@ -325,7 +345,9 @@ def check_library_loops(run):
             edzed.reset_circuit()
         run.add_case(dict(library_loop=name), True)
         run.count('library_loop')
-        ok = (obs.get('harness') is None and obs['raised'] is not None and 'EdzedCircuitError' in obs['raised']
+        raised_ok = (obs['raised'] is None if name in TIMER_LOOPS
+                     else obs['raised'] is not None and 'EdzedCircuitError' in obs['raised'])
+        ok = (obs.get('harness') is None and raised_ok
               and 'ecursive' in (obs['error'] or '') and obs['ready'] is False)
         if not ok:
             run.violation('monitor', dict(case=dict(library_loop=name), observed=obs),
@@ -373,4 +395,7 @@ def replay(run, path):
     if payload.get('clause') == 'fsm_exit_reentry':
         from . import c03
         return common.std_replay(run, c03.C03(), path)
+    _, case = common.load_replay_case(path)
+    if isinstance(case, dict) and 'library_loop' in case:
+        return common.directed_replay(run, path, lambda: check_library_loops(run, case['library_loop']))
     return common.std_replay(run, C11(), path)
